@@ -285,7 +285,12 @@ def t4_literals(ctx):
         m3 = _re.fullmatch(_re.escape("std::array::<impl std::ops::Index<I> for [T; N]>::index(%s, RangeFrom::RangeFrom{start: " % BR) + r"(.*)\}\)", ws[2])
         z = m3.group(1) if m3 else None
         m2 = z is not None and ws[1] in ("array(SubWithOverflow(32, (%s as u8)).0)" % z, "array((SubWithOverflow(32, %s).0 as u8))" % z)
-        if m2 and BR in z:
+        if m2 and LZ in z and z != LZ and "(%s as " % LZ != z[:len(LZ) + 5]:
+            # the canonical count, but clamped / shifted (`.min(31)`, `.saturating_sub(1)`, ..): no longer the number of leading zero bytes, so some value
+            # gets a non-minimal encoding — which decode rejects (encode and decode stop being inverse for it)
+            r.violation("PushIC/encode", "PushIC is written with Z = %s, which is not the number of leading zero bytes for every value: the encoding is not minimal there and does not decode" % z[:120])
+            exact = None
+        elif m2 and BR in z:
             r.undecided("PushIC/encode", "PushIC is written as opcode, 32 − Z, bytes[Z..] with Z = %s: that Z counts the leading zero bytes is not decided for this spelling" % z[:120])
             exact = None
     if exact is not None:
